@@ -64,6 +64,11 @@ impl FileTracker {
         new_file_number
     }
 
+    /// Stop tracking a file that could not be created.
+    pub fn forget(&mut self, file: &FileNumber) {
+        self.files.remove(file);
+    }
+
     /// Create a FileTracker from a list of file id to track.
     pub fn from_file_numbers(file_numbers: Vec<u64>) -> Option<FileTracker> {
         if file_numbers.is_empty() {
